@@ -262,3 +262,12 @@ MUTANTS += [
     dict(prop="C02", name="tag ids: new id is len(mapping) + 1... of the AOEF store", file="io/aoef/tag.py", old="        return len(self._mapping)", new="        return len(self._aoef_store)"),
     dict(prop="C02", name="tag ids: constant new id", file="io/aoef/tag.py", old="        return len(self._mapping)", new="        return 0"),
 ]
+MUTANTS += [
+    dict(prop="C09", name="top-3 accuracy computed with k=2", file=MET, old="        k=3,", new="        k=2,"),
+    dict(prop="C09", name="top-3 accuracy: labels without the none class", file=MET, old="        labels=list(range(num_classes + 1)),", new="        labels=list(range(num_classes)),"),
+    dict(prop="C09", name="balanced accuracy: none column is the row sum", file=MET, old="""    y_score = np.c_[y_score, 1 - y_score.sum(axis=1, keepdims=True)]
+    y_pred = y_score.argmax(axis=1)
+    return metrics.balanced_accuracy_score(""", new="""    y_score = np.c_[y_score, y_score.sum(axis=1, keepdims=True)]
+    y_pred = y_score.argmax(axis=1)
+    return metrics.balanced_accuracy_score("""),
+]
